@@ -447,6 +447,9 @@ def _check(ctx: Ctx) -> None:
               construct="emitted velocity is not the value of the note's bin in the tokeniser's own bin list",
               message=f"`{vsrc} = {short(vdef) if vdef is not None else '?'}`", file=fe.file, node=note_if)
 
+    from ..engines.velbins import topbin_rules
+    topbin_rules(ctx)
+
     # ---- DUR (parser side): every bar line is recorded in every track, at the clock after the bar was closed, so that the
     # decoded duration reaches the end of the last bar
     bar_branch = next((b for m_, t_, b in T.prefix_branches(fd.node) if m_ == "BAR"), None) if hasattr(T, "prefix_branches") else None
